@@ -11,7 +11,7 @@ use crate::verif::gen::{self, Graph};
 use crate::verif::model::RuleStatus;
 use crate::verif::shim::Policy;
 use crate::verif::util::{env_str, fnv64, fnv_str, mix, Rng, J};
-use crate::verif::vsys::{Clock, Op, VSys, Who, RULER_DIR};
+use crate::verif::vsys::{Clock, Op, VSys, Who, ruler_dir};
 use crate::verif::world::{self, Obs, SchedChoice, Verdict, Violation, WErr};
 
 #[derive(Clone, Debug)]
@@ -140,8 +140,8 @@ pub fn make_scenario(rng : &mut Rng, prop : &str, thorough : bool) -> Scenario
     // by a disk, by another tool): whatever the interleaving, no panic, no hang, no channel error
     if prop == "C05" && rng.chance(1, 6)
     {
-        let mut candidates = run.world.sys.disk().files_under(&format!("{}/history", RULER_DIR));
-        candidates.push(format!("{}/current_file_states", RULER_DIR));
+        let mut candidates = run.world.sys.disk().files_under(&format!("{}/history", ruler_dir()));
+        candidates.push(format!("{}/current_file_states", ruler_dir()));
         let victim = candidates[rng.below(candidates.len())].clone();
         if let Some(bytes) = run.world.sys.read_file(&victim)
         {
@@ -229,7 +229,7 @@ fn outcome(obs : &Obs) -> (Verdict, BTreeMap<String, Vec<u8>>)
 
 fn cache_ops(obs : &Obs) -> usize
 {
-    let prefix = format!("{}/cache/", RULER_DIR);
+    let prefix = format!("{}/cache/", ruler_dir());
     let tids : BTreeSet<usize> = obs.log.iter().filter(|e| e.who == Who::Ruler && (e.p1.starts_with(&prefix) || e.p2.starts_with(&prefix))).map(|e| e.tid).collect();
     tids.len()
 }
